@@ -41,7 +41,7 @@ const (
 var keys, addrs = func() ([]*ecdsa.PrivateKey, []common.Address) {
 	var ks []*ecdsa.PrivateKey
 	var as []common.Address
-	for i := 0; i < 5; i++ {
+	for i := 0; i < 10; i++ {
 		h := sha256.Sum256([]byte(fmt.Sprintf("verif-bsc/%d", i)))
 		k, err := crypto.ToECDSA(h[:])
 		if err != nil {
@@ -161,7 +161,7 @@ func Build(s Spec) *bsctypes.Header {
 			extra = extra[:len(extra)-1]
 		}
 	case "coinbase-not-sealer":
-		h.Coinbase = addrs[(s.Signer+1)%5][:]
+		h.Coinbase = addrs[(s.Signer+1)%10][:]
 	case "corrupt-signature":
 		tamperSig = true
 	case "difficulty-zero":
@@ -199,6 +199,16 @@ type Bounds struct {
 	N     int // initial validator set size
 	Epoch uint64
 	Depth int
+	U     int  // size of the key universe (default 5)
+	Big   bool // large-set configuration: restricted sealer menu, shrinking lists
+	GenesisShrink int // large sets: the genesis header already announces a list of this size (0 = same set)
+}
+
+func (b Bounds) u() int {
+	if b.U == 0 {
+		return 5
+	}
+	return b.U
 }
 
 // model is the reference snapshot.
@@ -207,10 +217,12 @@ type model struct {
 	Vals    []int // sorted by address
 	Sealers map[uint64]int
 	Pending []int
+	// last switch to a larger set: block and the recents limit (N/2+1) that was in force before it
+	GrowAt, GrowOldLimit uint64
 }
 
 func (m model) clone() model {
-	n := model{Head: m.Head, Vals: append([]int{}, m.Vals...), Pending: append([]int{}, m.Pending...), Sealers: map[uint64]int{}}
+	n := model{Head: m.Head, Vals: append([]int{}, m.Vals...), Pending: append([]int{}, m.Pending...), Sealers: map[uint64]int{}, GrowAt: m.GrowAt, GrowOldLimit: m.GrowOldLimit}
 	for k, v := range m.Sealers {
 		n.Sealers[k] = v
 	}
@@ -243,7 +255,11 @@ func New(b Bounds) bfs.System {
 	}
 	set = sortIdx(set)
 	g := b.Epoch * 4
-	gen := Build(Spec{Number: g, Signer: set[0], Coinbase: -1, Diff: 2, List: set})
+	announced := set
+	if b.GenesisShrink > 0 {
+		announced = sortIdx(set[len(set)-b.GenesisShrink:])
+	}
+	gen := Build(Spec{Number: g, Signer: set[0], Coinbase: -1, Diff: 2, List: announced})
 	var vals [][]byte
 	for _, a := range sortedAddrs(set) {
 		vals = append(vals, append([]byte{}, a[:]...))
@@ -254,7 +270,7 @@ func New(b Bounds) bfs.System {
 		panic(err)
 	}
 	s.parent = gen
-	s.m = model{Head: g, Vals: set, Pending: set, Sealers: map[uint64]int{g: set[0]}}
+	s.m = model{Head: g, Vals: set, Pending: announced, Sealers: map[uint64]int{g: set[0]}}
 	return s
 }
 
@@ -273,7 +289,22 @@ func (s *sys) epochLists() map[string][]int {
 	for _, v := range cur {
 		in[v] = true
 	}
-	for i := 0; i < 5; i++ {
+	if s.b.Big {
+		out = map[string][]int{"same": cur}
+		if len(cur) > 3 {
+			out["shrink-to-3"] = sortIdx(cur[len(cur)-3:])
+			out["shrink-to-2"] = sortIdx(cur[:2])
+		}
+		if len(cur) <= 3 {
+			var all []int
+			for i := 0; i < s.b.u()-1; i++ {
+				all = append(all, i)
+			}
+			out["grow-to-all"] = sortIdx(all)
+		}
+		return out
+	}
+	for i := 0; i < s.b.u(); i++ {
 		if !in[i] && len(cur) < 4 {
 			out["plus1"] = sortIdx(append(append([]int{}, cur...), i))
 			break
@@ -283,7 +314,7 @@ func (s *sys) epochLists() map[string][]int {
 		out["minus1"] = sortIdx(cur[1:])
 	}
 	var dis []int
-	for i := 0; i < 5 && len(dis) < len(cur); i++ {
+	for i := 0; i < s.b.u() && len(dis) < len(cur); i++ {
 		if !in[i] {
 			dis = append(dis, i)
 		}
@@ -306,7 +337,7 @@ func (s *sys) Ops() []string {
 		sort.Strings(lists)
 	}
 	for _, l := range lists {
-		for signer := 0; signer < 5; signer++ {
+		for _, signer := range s.sealerMenu() {
 			for _, d := range []int{2, 1} {
 				out = append(out, fmt.Sprintf("hdr %d %d %s", signer, d, l))
 			}
@@ -318,6 +349,37 @@ func (s *sys) Ops() []string {
 			out = append(out, fmt.Sprintf("mut %d %d %s %s", v, d, lists[0], m))
 		}
 	}
+	return out
+}
+
+// sealerMenu: every key of the universe, or (large sets) the in-turn validator, its two successors,
+// every sealer of the last floor(N/2)+1 blocks and one outsider.
+func (s *sys) sealerMenu() []int {
+	var out []int
+	if !s.b.Big {
+		for i := 0; i < s.b.u(); i++ {
+			out = append(out, i)
+		}
+		return out
+	}
+	seen := map[int]bool{}
+	addk := func(k int) {
+		if !seen[k] {
+			seen[k] = true
+			out = append(out, k)
+		}
+	}
+	n := uint64(len(s.m.Vals))
+	next := s.m.Head + 1
+	for k := uint64(0); k < 3 && k < n; k++ {
+		addk(s.m.Vals[(next+k)%n])
+	}
+	for k := uint64(0); k <= n/2+1; k++ {
+		if w, ok := s.m.Sealers[s.m.Head-k]; ok && s.m.Head >= k {
+			addk(w)
+		}
+	}
+	addk(s.b.u() - 1) // never a validator in the large-set configurations
 	return out
 }
 
@@ -333,12 +395,23 @@ func (s *sys) eligible(idx int, number uint64) (ok bool, diff int64, why string)
 		return false, 0, "not a validator"
 	}
 	n := uint64(len(s.m.Vals))
+	conflict, inWindow := uint64(0), false
 	for k := uint64(1); k <= n/2; k++ {
 		if number >= k {
 			if who, ok := s.m.Sealers[number-k]; ok && who == idx {
-				return false, 0, fmt.Sprintf("sealed block %d (within the last %d)", number-k, n/2)
+				conflict = number - k
+				// was this record still inside the window that was in force when the set last grew?
+				if !(s.m.GrowAt > 0 && number-k+s.m.GrowOldLimit < s.m.GrowAt) {
+					inWindow = true
+				}
 			}
 		}
+	}
+	if conflict > 0 {
+		if inWindow {
+			return false, 0, fmt.Sprintf("sealed block %d (within the last %d)", conflict, n/2)
+		}
+		return false, 0, fmt.Sprintf("sealed-before-growth: sealed block %d (within the last %d of the enlarged set, but outside the window of the smaller set in force until block %d)", conflict, n/2, s.m.GrowAt)
 	}
 	if uint64(pos) == number%n {
 		return true, 2, ""
@@ -416,7 +489,7 @@ func (s *sys) Apply(op string) (obs, class string, viols []bfs.Viol) {
 		if mut != "" {
 			reason = "structurally invalid / not the direct child: " + mut
 		}
-		add("ineligible-header-accepted/"+strings.Fields(reason)[0]+mut, fmt.Sprintf("%s -- %s", desc, reason))
+		add("ineligible-header-accepted/"+strings.TrimSuffix(strings.Fields(reason)[0], ":")+mut, fmt.Sprintf("%s -- %s", desc, reason))
 	}
 	// commit the step; advance the model exactly as the statement prescribes
 	write()
@@ -430,6 +503,9 @@ func (s *sys) Apply(op string) (obs, class string, viols []bfs.Viol) {
 	if number%s.b.Epoch == uint64(len(s.m.Vals)/2) {
 		if fmt.Sprint(s.m.Vals) != fmt.Sprint(sortIdx(s.m.Pending)) {
 			class += " set-switch"
+		}
+		if len(s.m.Pending) > len(s.m.Vals) {
+			s.m.GrowAt, s.m.GrowOldLimit = number, uint64(len(s.m.Vals)/2+1)
 		}
 		s.m.Vals = sortIdx(s.m.Pending)
 	}
@@ -470,16 +546,20 @@ func (s *sys) recentString() string {
 // Key: height modulo (epoch x product of possible set sizes) keeps turn arithmetic exact; validator set, pending set
 // and the sealers of the last 2 blocks (max floor(N/2) for N <= 5) complete the state.
 func (s *sys) Key() string {
-	period := s.b.Epoch * 60 // lcm of set sizes 1..5 = 60
+	period := s.b.Epoch * 2520 // lcm of set sizes 1..10 = 2520
 	var rec []string
-	for k := uint64(1); k <= 2; k++ {
-		if w, ok := s.m.Sealers[s.m.Head+1-k]; ok {
+	for k := uint64(1); k <= 5; k++ {
+		if w, ok := s.m.Sealers[s.m.Head+1-k]; ok && s.m.Head+1 >= k {
 			rec = append(rec, fmt.Sprint(w))
 		} else {
 			rec = append(rec, "-")
 		}
 	}
-	return fmt.Sprintf("h=%d v=%v p=%v r=%s", s.m.Head%period, s.m.Vals, sortIdx(s.m.Pending), strings.Join(rec, ","))
+	grow := "-"
+	if s.m.GrowAt > 0 && s.m.Head-s.m.GrowAt < 6 {
+		grow = fmt.Sprintf("%d/%d", s.m.Head-s.m.GrowAt, s.m.GrowOldLimit)
+	}
+	return fmt.Sprintf("h=%d v=%v p=%v r=%s g=%s", s.m.Head%period, s.m.Vals, sortIdx(s.m.Pending), strings.Join(rec, ","), grow)
 }
 
 func (s *sys) Check() []bfs.Viol { return nil }
